@@ -8,11 +8,11 @@
 (*  L2  at most one item per input byte                                    *)
 (*  L3  no name, type, argument string or header value contains CR or LF   *)
 (*  L4  resynchronisation: the records of A \o <<LF>> \o B are the records *)
-(*      of A followed by the records of B.  "Records" are the Ok records   *)
-(*      and the error items of non-blank lines; an error line is compared  *)
-(*      without its terminator (A's last line gains one by concatenation), *)
-(*      and the empty error item a trailing blank line can produce is not  *)
-(*      a record.                                                          *)
+(*      of A followed by the records of B.  "Records" are all items, Ok    *)
+(*      records and error items alike; an error line is compared without   *)
+(*      its terminator (A's last line gains one by concatenation).  In     *)
+(*      particular a blank line is never an item: the stream of <<LF>> is  *)
+(*      empty like that of <<>> \o <<>>.                                    *)
 (***************************************************************************)
 EXTENDS Integers, Sequences, Bytes
 
@@ -34,11 +34,7 @@ StripNL(line) == Slice(line, 1, ScanTo(line, 1, NL))
 
 NormItem(it) == IF it.k = "err" THEN [k |-> "err", line |-> StripNL(it.line)] ELSE it
 
-RECURSIVE Norm(_)
-Norm(items) ==
-  IF items = <<>> THEN <<>>
-  ELSE LET h == NormItem(Head(items)) IN
-       (IF h.k = "err" /\ h.line = <<>> THEN <<>> ELSE <<h>>) \o Norm(Tail(items))
+Norm(items) == [n \in 1..Len(items) |-> NormItem(items[n])]
 
 L4(itemsWhole, itemsA, itemsB) == Norm(itemsWhole) = Norm(itemsA) \o Norm(itemsB)
 
